@@ -450,6 +450,7 @@ func runC02(c *report.Ctx) {
 	ruleFeeCeiling(c)
 	ruleFeeShareRoundsUp(c)
 	ruleChangeToFirstInput(c)
+	ruleInsufficientAgainstRequested(c)
 }
 
 func typeStr(t types.Type) string {
